@@ -11,6 +11,7 @@ EXTENDS JqParse
 I(x) == Tok("Ident", x)
 N(x) == Tok("Num", x)
 S(x) == Tok("Str", x)
+P(x) == Tok("Prim", x)
 
 \* <<tokens, is the tree assignable>>
 Lhs == {
@@ -23,6 +24,15 @@ Lhs == {
   <<<<I("a"), Sym("."), I("x"), Sym("("), Sym(")")>>, FALSE>>,
   <<<<I("a"), Sym("=="), I("b")>>, FALSE>>,
   <<<<I("a"), Sym("*"), N("2")>>, FALSE>>,
+  <<<<P("match (1) { 1 => a }")>>, FALSE>>, <<<<P("match (b) { 2 => a, _ => b }")>>, FALSE>>, <<<<Sym("("), P("match (1) { 1 => a }"), Sym(")")>>, FALSE>>,
+  <<<<P("{k: 1}")>>, FALSE>>, <<<<P("{}")>>, FALSE>>, <<<<P("/re/")>>, FALSE>>, <<<<P("a++")>>, FALSE>>, <<<<P("a--")>>, FALSE>>, <<<<P("a.x++")>>, FALSE>>,
+  <<<<Sym("+"), I("a")>>, FALSE>>, <<<<Sym("-"), Sym("-"), I("a")>>, FALSE>>,
+  <<<<I("a"), Sym("is"), I("number")>>, FALSE>>, <<<<I("a"), Sym("~"), S("x")>>, FALSE>>, <<<<I("a"), Sym("&&"), I("b")>>, FALSE>>,
+  <<<<I("a"), Sym("||"), I("b")>>, FALSE>>, <<<<I("a"), Sym("<"), I("b")>>, FALSE>>, <<<<I("a"), Sym("%"), I("b")>>, FALSE>>,
+  <<<<I("a"), Sym("["), N("0"), Sym("]"), Sym("("), Sym(")")>>, FALSE>>, <<<<Sym("["), Sym("]")>>, FALSE>>,
+  <<<<I("a"), Sym("."), I("x"), Sym("."), I("length"), Sym("("), Sym(")")>>, FALSE>>,
+  <<<<P("match (1) { 1 => a }"), Sym("."), I("x")>>, TRUE>>, <<<<Sym("("), P("{k: 1}"), Sym(")"), Sym("["), S("k"), Sym("]")>>, TRUE>>,
+  <<<<Sym("["), N("1"), Sym("]"), Sym("["), N("0"), Sym("]")>>, TRUE>>,
   <<<<I("a")>>, TRUE>>, <<<<I("a"), Sym("."), I("x")>>, TRUE>>, <<<<I("a"), Sym("["), N("0"), Sym("]")>>, TRUE>>,
   <<<<Sym("("), I("a"), Sym(")")>>, TRUE>>,
   <<<<I("a"), Sym("."), I("x"), Sym("["), N("1"), Sym("]"), Sym("."), I("y")>>, TRUE>>,
